@@ -102,7 +102,12 @@ def run_streams(mod, prop_id, tier, seed, scale=1.0, use_model=True, only=None, 
         n = max(1, int(n * scale))
         rng = common.seeded_rng(seed, prop_id, stream.name, scale)
         cases = list(common.load_corpus(prop_id, stream.name)) if scale == 1.0 else []
-        cases.extend(stream.gen(rng, n, tier))
+        gen_error = None
+        try:
+            cases.extend(stream.gen(rng, n, tier))
+        except Exception as exc:  # noqa: a generator that enumerates the implementation's surface (tags, help texts) may
+            # meet code it cannot drive any more: that breaks the correspondence of this stream, it does not end the check
+            gen_error = f"{type(exc).__name__}: {exc}"[:300]
         if not use_model:
             saved = stream.model_lines
             stream.model_lines = None
@@ -125,6 +130,9 @@ def run_streams(mod, prop_id, tier, seed, scale=1.0, use_model=True, only=None, 
         finally:
             if not use_model:
                 stream.model_lines = saved
+        if gen_error is not None:
+            res.mismatches.append(({"generator": stream.name}, {"__impl_error__": "case generation failed: " + gen_error}, None))
+            res.impl_errors += 1
         res.exhaustive = stream.exhaustive
         res.stream = stream
         results.append(res)
